@@ -105,7 +105,7 @@ def run(R, pid):
             if okb:
                 fout = os.path.join(R.work, "signer-facts")
                 env = vlib.goenv(); env.update(VERIF_OUT=fout)
-                rc, out = vlib.sh([hprobe, "-test.run", "TestSignerFacts", "-test.count=1"], env=env, timeout=300)
+                rc, out = vlib.sh([hprobe, "-test.run", "TestSignerFacts", "-test.count=1"], env=env, timeout=3000)     # watchdog only: expiry keeps the committed table (note)
                 if rc == 0 and os.path.exists(fout):
                     flines = open(fout).read().split("\n")
             changed, facts, notes = sgx.regenerate(os.path.join(vlib.COQ, "Packet", "GenSigners.v"), flines)
@@ -139,12 +139,12 @@ def run(R, pid):
             os.makedirs(R.work, exist_ok=True)
             probe = os.path.join(R.work, "LoadProbe.v")
             open(probe, "w").write("Require Packet.%s.\n" % v[:-2])
-            rc, _ = vlib.sh(["coqc"] + vlib._coq_flags("Packet") + [probe], cwd=d, timeout=300)
+            rc, _ = vlib.sh(["coqc"] + vlib._coq_flags("Packet") + [probe], cwd=d, timeout=3000)
             return rc == 0
         with vlib.flock("coq-Packet"):
             for v in ("GenSigners.v", "SigProofs.v"):
                 if ok and (stale(v) or not loads(v)):
-                    rc, out = vlib.sh(["coqc"] + vlib._coq_flags("Packet") + [os.path.join(d, v)], cwd=d, timeout=900)
+                    rc, out = vlib.sh(["coqc"] + vlib._coq_flags("Packet") + [os.path.join(d, v)], cwd=d, timeout=3000)
                     if rc != 0:
                         ok = False
                         R.proof_problems.append("coq/Packet/%s no longer checks: %s" % (v, " ".join(out.strip().split("\n")[-3:])[:300]))
